@@ -35,6 +35,7 @@ def dispatch (line : String) : String :=
     | "pkt" => PktDrv.runPkt args
     | "addr" => PktDrv.runAddr args
     | "builtin" => BuiltinDrv.run args
+    | "print" => BuiltinDrv.runPrint args
     | "scan" => ScanDrv.runScan args
     | "pcap" => PcapDrv.run args
     | "fread" => FileDrv.runRead args
